@@ -17,6 +17,14 @@ def run(R, tier, seed):
     if tier != "quick":
         steps += ["is_excluded-long"]
     planjobs.run(R, "C19", tier, seed, steps)
+    # independent re-decision of needs_transfer on the compiled code (Kani, byte-identical copy of plan.rs)
+    from . import kanilib
+    try:
+        kanilib.run_harnesses(R, "C19", "bin", [dict(h="gen_plan::verif_c19::c19_needs_transfer_exact", functions=["needs_transfer"],
+                                                      bound="all (size: u64, mtime: i64) pairs and both presence states (Kani/CBMC, full width)",
+                                                      witness=None)], timeout_s=600)
+    except Inconclusive as e:
+        R.add("C19/kani/encoding", "inconclusive", detail=str(e)[:300])
 
 
 def replay(path):
